@@ -5,6 +5,16 @@ import (
 	"strings"
 )
 
+// lenPos is the base of the length positions of a bitstring.
+//
+// A bitstring is padded with trailing zeros, so its bits alone cannot tell a string from the same string
+// followed by zero bytes. For that reason, bit positions continue after the bits of any string with one
+// position per byte: the bit at position lenPos+i is set if and only if the bitstring has at least i bytes.
+// Two different strings thus always differ at some position, and comparing positions in ascending order
+// (bits first, lengths last) still compares the strings lexicographically.
+// Strings are assumed to be shorter than lenPos bits.
+const lenPos = 1 << 30
+
 var (
 	empty = &bitString{}
 
@@ -71,6 +81,10 @@ func (b *bitString) BitString() string {
 
 // Bit returns a given bit by its position (position starts from one).
 func (b *bitString) Bit(pos int) bool {
+	if pos > lenPos {
+		return pos-lenPos <= len(b.bits)
+	}
+
 	if pos > b.len {
 		return false
 	}
@@ -86,8 +100,11 @@ func (b *bitString) DiffPos(c *bitString) int {
 	var x, y byte
 
 	for x == y {
-		// The bitstrings are the same and there is no difference
+		// The bits are the same: the bitstrings are the same or they differ in length only
 		if i >= len(b.bits) && i >= len(c.bits) {
+			if len(b.bits) != len(c.bits) {
+				return lenPos + min(len(b.bits), len(c.bits)) + 1
+			}
 			return 0
 		}
 
